@@ -135,6 +135,11 @@ def getter_semantics(rep, M, T, rid, values=True):
             start = fn.body.index(s2)
     if var is None:
         raise AnalysisError("get_bravais_lattice: read of SPACE_GROUP_INFO[n]['bravais_lattice'] not found")
+    for t in fn.body[:start]:
+        if isinstance(t, ast.If) and isinstance(t.test, ast.Compare) and isinstance(t.test.ops[0], ast.IsNot) and isinstance(t.test.comparators[0], ast.Constant) \
+                and t.test.comparators[0].value is None and any(isinstance(x, ast.Return) for x in t.body):
+            rep.violation(rid, f"get_bravais_lattice: `{norm(t.test)}`", "the getter returns early whenever a space group *was* detected: every crystal gets None as its "
+                          "Bravais lattice", M.where(fq, t))
     post = fn.body[start + 1:]
 
     def ev(e, val):
